@@ -965,7 +965,7 @@ func main() {
 		Explanation: "cipher-edges: 'transitions' of that family = distinct wanted (cipher state, cipher byte) pairs decrypted by the real scanner and compared with the reference (recounted by the body with its own bitmap).",
 		Families: func(tier string) []mc.Family {
 			thorough := tier == "thorough"
-			budget := 40 * time.Second
+			budget := 50 * time.Second
 			if thorough {
 				budget = 10 * time.Minute
 			}
